@@ -32,7 +32,7 @@ REQUIRED_SYS = ["NSYS_QUEUED", "NSYS_AUTH", "NSYS_USER", "NSYS_NOCONTROL", "NSYS
 
 
 def recipe(c: Check):
-    c.build(["Properties/C08.vo", "Corr/C08.vo"], harness=["c08"])
+    c.build(["Properties/C08.vo", "Corr/C08.vo"], harness=["c08"], units=["t5v"])
     c.obligations("C08")
     st = c.run_driver("visitors", q(c.tier, 260, 4000), shards=q(c.tier, 8, 16), timeout=q(c.tier, 300, 1500))
     if st:
